@@ -85,9 +85,15 @@ def build(dims, sizes, idx, wind=True, order=None):
     aux = {}
     pc = {d: coords[d] for d in dims}
     flat = np.arange(int(np.prod(sizes)) if sizes else 1, dtype=float)
-    aux["wspd"] = xr.DataArray((4.0 + 3.7 * flat).reshape(sizes), dims=list(dims), coords=pc)
-    aux["wdir"] = xr.DataArray(((37.0 * flat) % 360).reshape(sizes), dims=list(dims), coords=pc)
-    aux["dpt"] = xr.DataArray((8.0 + 11.0 * flat).reshape(sizes), dims=list(dims), coords=pc)
+    if wind == "shared":
+        # positions share wind speed/direction (pairwise) but differ in depth, or share depth but differ in wind
+        aux["wspd"] = xr.DataArray((12.0 + 6.0 * (flat // 2 % 2)).reshape(sizes), dims=list(dims), coords=pc)
+        aux["wdir"] = xr.DataArray((40.0 + 0.0 * flat).reshape(sizes), dims=list(dims), coords=pc)
+        aux["dpt"] = xr.DataArray(np.array([4.0, 60.0, 9.0, 9.0, 300.0, 4.0])[(flat.astype(int)) % 6].reshape(sizes), dims=list(dims), coords=pc)
+    else:
+        aux["wspd"] = xr.DataArray((4.0 + 3.7 * flat).reshape(sizes), dims=list(dims), coords=pc)
+        aux["wdir"] = xr.DataArray(((37.0 * flat) % 360).reshape(sizes), dims=list(dims), coords=pc)
+        aux["dpt"] = xr.DataArray((8.0 + 11.0 * flat).reshape(sizes), dims=list(dims), coords=pc)
     return da, aux
 
 
@@ -177,6 +183,28 @@ def run_layout(it):
                 if sig not in seen:
                     seen.add(sig)
                     res["violations"].append(Violation(PROP, sig, "%s on layout %s%s: %s" % (name, dims, sizes, bad), dict(kind="layout", dims=list(dims), sizes=list(sizes), k=it["k"], op=name)))
+    # wind-dependent partitions again with wind/depth fields in which positions share some of the values
+    if npos > 1 and "part" not in dims:
+        das, auxs_all = build(dims, sizes, idx, wind="shared")
+        for name in ("ptm1", "ptm2", "ptm4"):
+            fn = ops[name][0]
+            full = c05.run_op(fn, das, auxs_all)
+            res["evals"] += 1
+            for p in positions:
+                sub = das.isel({d: i for d, i in zip(dims, p)})
+                auxp = {k: v.isel({d: i for d, i in zip(dims, p)}) for k, v in auxs_all.items()}
+                single = c05.run_op(fn, sub, auxp)
+                res["evals"] += 1
+                if isinstance(full, Exception) or isinstance(single, Exception):
+                    msg = None if (isinstance(full, Exception) and isinstance(single, Exception)) else "raise mismatch: batch %r single %r" % (full, single)
+                else:
+                    msg = c05.compare(sel_pos(full, list(dims), p), single, 1e-10)
+                if msg:
+                    sig = "%s|batch-position-equals-single-spectrum|positions-share-wind-or-depth" % name
+                    if sig not in seen:
+                        seen.add(sig)
+                        res["violations"].append(Violation(PROP, sig, "%s on layout %s%s position %s with shared wind values: %s" % (name, dims, sizes, p, msg),
+                                                           dict(kind="layout", dims=list(dims), sizes=list(sizes), k=it["k"], op=name)))
     res["n_nontrivial"] = len(ops) * (npos if npos > 1 else 0)
     res["parts"]["layouts"] = res["evals"]
     res["samples"].append(dict(layout=list(dims), sizes=list(sizes), menu_indices=np.asarray(idx).tolist()))
@@ -272,7 +300,7 @@ def run(rep, tier, seed, parts=None):
     ops = ops_table()
     rep.rule = ("every layout of 0-3 non-spectral dimensions drawn from {time, site, lat, lon, part} in every order (quick: all 0/1/2-dim "
                 "layouts and every 4th 3-dim one; thorough: all 86) with sizes in {1,2,3}, positions filled from a menu of 30 pairwise "
-                "distinct spectra (incl. zero, constant, peak-less, single-bin) with per-position wind and depth; %d operations (all public "
+                "distinct spectra (incl. zero, constant, peak-less, single-bin) with per-position wind and depth (all distinct, and a second field in which positions share wind speed/direction or depth); %d operations (all public "
                 "methods except hmax); for every position the batch result must equal the result on the extracted single spectrum, and "
                 "replacing one spectrum must leave every other position bitwise unchanged; all 900 ordered pairs of menu spectra on a "
                 "2-position layout (quick: 12 operations, thorough: all); Dataset accessor vs efth accessor for every operation. "
